@@ -79,7 +79,39 @@ def _seed_functions(repo, pid):
                             hit = True
                         elif rest.endswith(".main") and "*" in rest:
                             hit = True
-                        elif "." in rest:
+                        if not hit and rest and rest != "*":
+                            # moved to another module of the package (and
+                            # imported back): a class / function of that name
+                            # that is unique in the package
+                            head = rest.split(".")[0]
+                            homes = [mm for mm in repo.modules.values()
+                                     if head in mm.classes or
+                                     head in mm.functions]
+                            if len(homes) == 1 and homes[0] is not m:
+                                hm = homes[0]
+                                tail = rest[len(head) + 1:]
+                                if head in hm.classes:
+                                    last_cls = hm.classes[head]
+                                    if tail in ("", "*"):
+                                        seeds.extend(
+                                            last_cls.methods.values())
+                                        hit = True
+                                    elif tail in last_cls.methods:
+                                        seeds.append(last_cls.methods[tail])
+                                        hit = True
+                                    else:
+                                        seeds.extend(
+                                            last_cls.methods.values())
+                                        hit = True
+                                elif rest in hm.functions:
+                                    seeds.append(hm.functions[rest])
+                                    hit = True
+                                elif head in hm.functions:
+                                    seeds.append(hm.functions[head])
+                                    hit = True
+                        if hit:
+                            break
+                        if "." in rest:
                             # a nested function / method that has gone: the
                             # longest prefix that still names something
                             parts = rest.split(".")
@@ -271,6 +303,17 @@ def mechanism_closure(repo, pid, depth=3):
             continue
         ctor.setdefault(k.key, (k, set()))[1].update(
             _self_attrs(f.node, ast.Load))
+    # helpers the constructor calls to compute those attributes
+    for k, attrs in list(ctor.values()):
+        for st in ast.walk(k.node):
+            if isinstance(st, ast.stmt) and st is not k.node and \
+                    _self_attrs(st, ast.Store) & attrs:
+                for c in calls_in(st):
+                    h = resolve_local_call(k, c)
+                    if h is not None and h.key not in seen:
+                        seen[h.key] = h
+                        for h2 in _callees(repo, h, method_index, None):
+                            seen.setdefault(h2.key, h2)
     cache[pid] = Scope(set(seen), ctor)
     return cache[pid]
 
